@@ -244,8 +244,29 @@ def _main_check(ctx: Ctx) -> None:
               message=f"{[short(c, 80) for c in dflt]}", file=cv.file, node=cv.node)
     if dflt:
         g = next((a for a in ancestors(dflt[0]) if isinstance(a, ast.If)), None)
-        ok = g is not None and isinstance(g.test, ast.UnaryOp) and isinstance(g.test.op, ast.Not) and "any(" in src(g.test) and "== 0" in src(g.test) \
-            and "TIME_SIGNATURE" in src(g.test)
+        def no_signature_at_zero(t):
+            """`not any(<time of entry> == 0 for entry in <time-signature timings>)` or `all(<time of entry> != 0 for ...)`"""
+            neg = False
+            if isinstance(t, ast.UnaryOp) and isinstance(t.op, ast.Not):
+                neg, t = True, t.operand
+            if not (isinstance(t, ast.Call) and isinstance(t.func, ast.Name) and t.func.id in ("any", "all") and len(t.args) == 1
+                    and isinstance(t.args[0], ast.GeneratorExp) and len(t.args[0].generators) == 1 and not t.args[0].generators[0].ifs):
+                return False
+            ge, gen = t.args[0], t.args[0].generators[0]
+            if "TIME_SIGNATURE" not in src(gen.iter) or "get_message_times_of_type" not in src(gen.iter):
+                return False
+            c_ = ge.elt
+            if not (isinstance(c_, ast.Compare) and len(c_.ops) == 1 and isinstance(c_.comparators[0], ast.Constant) and c_.comparators[0].value == 0
+                    and not isinstance(c_.comparators[0].value, bool)):
+                return False
+            first = (isinstance(gen.target, ast.Name) and src(c_.left) == f"{gen.target.id}[0]") or \
+                (isinstance(gen.target, ast.Tuple) and gen.target.elts and isinstance(gen.target.elts[0], ast.Name) and src(c_.left) == gen.target.elts[0].id)
+            if not first:
+                return False
+            if t.func.id == "any":
+                return neg and isinstance(c_.ops[0], ast.Eq)
+            return (not neg) and isinstance(c_.ops[0], ast.NotEq)
+        ok = g is not None and no_signature_at_zero(g.test)
         from ..astutil import extra_conditions
         ok = ok and not extra_conditions(dflt[0], g.test)
         ctx.check(ok, "DEFAULT", "convert: default added only when no time signature sits at tick 0", function=cv.qualname,
